@@ -28,6 +28,8 @@ inductive Built : Packet → Prop where
   | clear {p : Packet} : Built p → Built (clearData p)
   | data {p p' : Packet} (d : Data) (dims : List Int) : Built p → d.typed = true → ValidData d →
       ValidDims dims → newData p d dims = .ok p' → Built p'
+  | pretend {p q : Packet} (seq : Nat) (nchan : Int) : Built p → seq < 4294967296 →
+      makePretend p seq nchan = .ok q → Built q
 
 structure Good (p : Packet) : Prop where
   v : p.version < 256
@@ -42,6 +44,39 @@ structure Good (p : Packet) : Prop where
 
 theorem fmtOf_wordlen (d : Data) (h : d.typed = true) : (fmtOf d).wordlen = d.wsize := by
   cases d <;> simp_all [fmtOf, Data.wsize, Data.typed]
+
+theorem pickAll_mem (xs : List Int) (k : Nat) (idxs : List Nat) (ys : List Int)
+    (h : pickAll xs k idxs = .ok ys) : ys.length = idxs.length ∧ ∀ y ∈ ys, y ∈ xs := by
+  induction idxs generalizing ys with
+  | nil => simp only [pickAll, Res.ok.injEq] at h; subst h; simp
+  | cons i r ih =>
+    simp only [pickAll] at h
+    split at h
+    · cases h
+    · rename_i v hv
+      cases hr : pickAll xs k r with
+      | pan c => rw [hr] at h; cases h
+      | ok vs =>
+        rw [hr] at h
+        simp only [Res.bind, Res.ok.injEq] at h
+        subst h
+        obtain ⟨hl, hm⟩ := ih vs hr
+        refine ⟨by simp [hl], ?_⟩
+        intro y hy
+        simp only [List.mem_cons] at hy
+        rcases hy with rfl | hy
+        · exact List.mem_of_getElem? hv
+        · exact hm y hy
+
+theorem pretendVals_mem (xs : List Int) (n : Int) (ys : List Int) (h : pretendVals xs n = .ok ys) :
+    ys.length = xs.length ∧ ∀ y ∈ ys, y ∈ xs := by
+  unfold pretendVals at h
+  split at h
+  · rename_i hx; cases h; subst hx; simp
+  · split at h
+    · cases h
+    · have := pickAll_mem _ _ _ _ h
+      simpa using this
 
 theorem built_good (p : Packet) (h : Built p) : Good p := by
   induction h with
@@ -126,6 +161,58 @@ theorem built_good (p : Packet) (h : Built p) : Good p := by
     · exact hhl
     · simp only [hwl]; omega
     · simp only; omega
+  | @pretend p q sq nchan _ hsq hmk ih =>
+    obtain ⟨hv, hs, hq, ho, hts, hb⟩ := ih
+    have key : ∀ (mk : List Int → Data) (xs ys : List Int), p.data = mk xs →
+        (∀ l, (mk l).typed = true) → (∀ l, (mk l).len = l.length) → (∀ l, (mk l).wsize = (mk xs).wsize) →
+        (∀ l, fmtOf (mk l) = fmtOf (mk xs)) → (ValidData (mk xs) → (∀ y ∈ ys, y ∈ xs) → ValidData (mk ys)) →
+        ys.length = xs.length ∧ (∀ y ∈ ys, y ∈ xs) → Good { p with seq := sq, data := mk ys } := by
+      intro mk xs ys hd hty hlen hws hfm hval hys
+      refine ⟨hv, hs, hsq, ho, hts, ?_⟩
+      rcases hb with ⟨h1, _⟩ | ⟨dims, h1, h2, h3, h4, h5, h6, h7, h8, h9⟩
+      · rw [hd] at h1; have := hty xs; rw [h1] at this; simp [Data.typed] at this
+      · right
+        rw [hd] at h2 h5 h8
+        refine ⟨dims, hty ys, hval h2 hys.2, h3, h4, ?_, h6, h7, ?_, h9⟩
+        · simp only [hfm ys]; exact h5
+        · simp only [hws ys, hlen ys, hys.1]; rw [h8, hlen xs]
+    unfold makePretend at hmk
+    cases hd : p.data with
+    | none =>
+      rw [hd] at hmk; simp only [Res.ok.injEq] at hmk; subst hmk
+      refine ⟨hv, hs, hsq, ho, hts, ?_⟩
+      rcases hb with ⟨h1, h2, h3, h4, h5⟩ | ⟨dims, h1, _⟩
+      · exact Or.inl ⟨rfl, h2, h3, h4, h5⟩
+      · rw [hd] at h1; simp [Data.typed] at h1
+    | raw bs =>
+      exfalso
+      rcases hb with ⟨h1, _⟩ | ⟨dims, h1, _⟩
+      · rw [hd] at h1; cases h1
+      · rw [hd] at h1; simp [Data.typed] at h1
+    | i16 xs =>
+      rw [hd] at hmk
+      cases hpv : pretendVals xs nchan with
+      | pan c => simp [hpv, Res.bind] at hmk
+      | ok ys =>
+        simp only [hpv, Res.bind, Res.ok.injEq] at hmk; subst hmk
+        exact key .i16 xs ys hd (fun _ => rfl) (fun _ => rfl) (fun _ => rfl) (fun _ => rfl)
+          (fun hvx hm y hy => hvx y (hm y hy)) (pretendVals_mem xs nchan ys hpv)
+    | i32 xs =>
+      rw [hd] at hmk
+      cases hpv : pretendVals xs nchan with
+      | pan c => simp [hpv, Res.bind] at hmk
+      | ok ys =>
+        simp only [hpv, Res.bind, Res.ok.injEq] at hmk; subst hmk
+        exact key .i32 xs ys hd (fun _ => rfl) (fun _ => rfl) (fun _ => rfl) (fun _ => rfl)
+          (fun hvx hm y hy => hvx y (hm y hy)) (pretendVals_mem xs nchan ys hpv)
+    | i64 xs =>
+      rw [hd] at hmk
+      cases hpv : pretendVals xs nchan with
+      | pan c => simp [hpv, Res.bind] at hmk
+      | ok ys =>
+        simp only [hpv, Res.bind, Res.ok.injEq] at hmk; subst hmk
+        exact key .i64 xs ys hd (fun _ => rfl) (fun _ => rfl) (fun _ => rfl) (fun _ => rfl)
+          (fun hvx hm y hy => hvx y (hm y hy)) (pretendVals_mem xs nchan ys hpv)
 
 /-! ### The TLV loop, block by block -/
 
